@@ -93,6 +93,33 @@ pub const UTF8_TAG: u64 = u64::MAX - 1;
 pub fn use_seek_relative(d: i64, pos: u64) -> bool {
     (d as u64 ^ pos) % 2 == 0
 }
+/// `read_exact` assembled from `read_vectored` calls (two slices at a time).
+pub fn use_vectored_exact(n: usize, pos: u64) -> bool {
+    n >= 2 && (n as u64 + pos) % 2 == 1
+}
+/// What `read_exact` does, through `read_vectored`: fill the buffer or fail with
+/// UnexpectedEof at the end (everything up to the end consumed).
+pub fn read_exact_vectored<R: Read>(r: &mut R, buf: &mut [u8]) -> io::Result<()> {
+    let mut filled = 0;
+    while filled < buf.len() {
+        let rest = &mut buf[filled..];
+        let cut = rest.len() / 3 + 1;
+        let k = if rest.len() >= 2 {
+            let (a, b) = rest.split_at_mut(cut);
+            let mut sl = [std::io::IoSliceMut::new(a), std::io::IoSliceMut::new(b)];
+            r.read_vectored(&mut sl)
+        } else {
+            r.read(rest)
+        };
+        match k {
+            Ok(0) => return Err(io::Error::new(ErrorKind::UnexpectedEof, "failed to fill whole buffer")),
+            Ok(k) => filled += k,
+            Err(e) if e.kind() == ErrorKind::Interrupted => {}
+            Err(e) => return Err(e),
+        }
+    }
+    Ok(())
+}
 /// `read_to_string` for `read_to_end`.
 pub fn use_read_to_string(len: u64, pos: u64) -> bool {
     (len + pos) % 2 == 0
@@ -613,7 +640,8 @@ impl Session {
             Step::HReadExact { n, .. } => {
                 let mut buf = vec![0u8; *n];
                 let avail = (data_len - h.pos) as usize;
-                match stream.read_exact(&mut buf) {
+                let rr = if use_vectored_exact(*n, h.pos) { read_exact_vectored(stream, &mut buf) } else { stream.read_exact(&mut buf) };
+                match rr {
                     Ok(()) => {
                         let node = self.model.get(&h.names).unwrap();
                         if *n > avail {
